@@ -208,11 +208,11 @@ static void probe(void *vs)
         check_list(l, 0, s, what, nm[what], shape);
         if (l) SPIF_LIST_DEL(l);
         /* into a caller-supplied list that already holds one element */
-        spif_list_t mine = SPIF_LIST_NEW(array); SPIF_LIST_APPEND(mine, S_("own"));
+        spif_list_t mine = what == 1 ? SPIF_LIST_NEW(linked_list) : SPIF_LIST_NEW(array); SPIF_LIST_APPEND(mine, S_("own")); SPIF_LIST_APPEND(mine, S_("own2"));      /* two elements: their order is the caller's */
         spif_list_t r = what == 0 ? SPIF_MAP_GET_KEYS(m, mine) : (what == 1 ? SPIF_MAP_GET_VALUES(m, mine) : SPIF_MAP_GET_PAIRS(m, mine));
         if (r != mine) FAIL(site(nm[what]), "model:return", shape, "did not return the caller's list");
-        else if (!is_str(SPIF_LIST_GET(mine, 0), "own")) FAIL(site(nm[what]), "model:caller-list-clobbered", shape, "the caller's first element changed");
-        else check_list(mine, 1, s, what, nm[what], shape);
+        else if (!is_str(SPIF_LIST_GET(mine, 0), "own") || !is_str(SPIF_LIST_GET(mine, 1), "own2")) FAIL(site(nm[what]), "model:caller-list-clobbered", shape, "the caller's own two elements changed or changed places");
+        else check_list(mine, 2, s, what, nm[what], shape);
         SPIF_LIST_DEL(mine);
     }
     { spif_iterator_t it = SPIF_MAP_ITERATOR(m); int i = 0;
